@@ -16,10 +16,12 @@ one; the assembler is started in the source directory, its parent, the directory
 source and include path spelled relative to the working directory or absolute (thorough: also mixed); the name written
 plain, without suffix, with a sub-directory, with `..`, absolute; the statement in the main source or in an include
 file found through -i (directory of the including file = an include directory); include path empty, one directory,
-two in either order; programs IFEXIST+IFNEXIST and BINCLUDE+INCLUDE (thorough: also mixed order).  Every file holds
+two in either order; programs IFEXIST+IFNEXIST and BINCLUDE+INCLUDE as two sources of one invocation (a failed INCLUDE is
+fatal and would hide the IFEXIST answers; thorough: also a mixed program and the sources swapped).  Every file holds
 its own content (a tag naming its directory), so the code file tells which file was read.
 (M) TLC, every group: RepairedIsManual, CwdNeverMatters, DeviationsAreNamed, DecoyOnlyByDevs (see IncSearch_MC.tla).
-(G) every group is run once per variant (quick 1 540 groups x 8, thorough 6 720 x 16).  Verdict-bearing: the C17
+(G) every group is run once per variant (quick 770 groups x 8, thorough 6 720 x 16), the two / three sources of a group in
+    ONE invocation (`asl -i .. -o .. -o .. main1.asm main2.asm`), all variants of a group in the same tree.  Verdict-bearing: the C17
     clause itself - all variants of a group (same sources, same include path, another working directory / spelling)
     leave byte-identical code files or none (rep.violation kind=incsearch-cwd); no abnormal end.  Where TLC predicted
     exactly the observed dependence from a named deviation of the pinned code, the key carries the deviation, so that a
@@ -37,10 +39,12 @@ known_findings/*.json, or VERIF_INCSEARCH_FIXED=<dev,...> for trying a proposed 
 Not covered: symbolic links, unreadable files / directories, names longer than STRINGSIZE, Windows drive letters and
 back slashes (DRSEP / DeCygwinPath are compiled out on Unix), the message-file search of nlmessages.c (it uses FSearch
 with the documented "current directory first" rule).
-Mutations of the real code tried (scratch copies, all pass the 201 golden tests; `./check C17 --tier quick` exits 1):
-FSearch probing the name as given before the include path (the seeded change); FSearch trying the include path before
-the directory of the including file; INCLUDE_SearchCore handing "" as search path; DirPart taken from the main source
-instead of the including file (SaveAttr restored too early is not expressible without a code change of that size: not tried).
+Mutations of the real code tried (scratch copies; `./check C17 --tier quick` resp. this extension alone reports
+VIOLATION for each): FSearch probing the name as given before the include path (the seeded change, passes the 201 golden
+tests: 69 more groups depend on the working directory, 270 violations here); FSearch falling back to the name as given
+after the include path (201); FSearch ignoring the directory of the including file (447); BINCLUDE preferring a file of
+the working directory (157).  Both proposed repairs, alone and together, were run against the model with the
+corresponding deviation in Fixed: 0 differences; 201/201 golden tests with both applied.
 """
 import glob
 import json
